@@ -11,6 +11,7 @@ from .. import weaver_common as W
 from ..core import fmt, fmt_list, parse_rats, frac, err_kind, exact, floats
 
 ID = "C11"
+THREADS = True       # part of the cases run concurrently in threads of one interpreter (the schedule dimension)
 MODULES = ["TWV.Properties.C11"]
 RULE = ("boundary-heavy cases: (a) process.truncate on lattice series of 1..14 points with bounds inside, exactly on samples, "
         "equal to the first / last abscissa, outside, inverted, absolute or as ratios 0, 1, in between; (b) Weaver sessions "
@@ -48,6 +49,25 @@ def gen_trunc(rng):
     if rng.random() < 0.75 and not (lr or rr) and l > r:
         l, r = r, l
     return {"kind": "truncate", "x": [str(v) for v in x], "y": [str(v) for v in y], "l": str(l), "r": str(r), "lr": lr, "rr": rr}
+
+
+def gen_bigint(rng):
+    """integer time stamps beyond 2**53 (nanoseconds since the epoch) closer together than float64 can tell apart; one
+    bound is an exact sample (a Python int), the other a float far outside ("to the end" / "from the start")"""
+    n = rng.randint(4, 40)
+    x = [1_800_000_000_000_000_000 + rng.randint(0, 10 ** 6)]
+    for _ in range(n - 1):
+        x.append(x[-1] + rng.randint(3, 60))
+    i = rng.randrange(n)
+    if rng.random() < 0.5:
+        l, r, lf, rf = x[i], 2 * 10 ** 18, False, True
+    else:
+        l, r, lf, rf = 10 ** 18, x[i], True, False
+    if rng.random() < 0.2:
+        j = rng.randrange(n)
+        l, r, lf, rf = min(x[i], x[j]), max(x[i], x[j]) + (1 if i == j else 0), False, False
+    return {"kind": "truncate", "x": [str(v) for v in x], "y": [str(v) for v in rng.values(n)], "l": str(l), "r": str(r),
+            "lr": False, "rr": False, "bigint": True, "lf": lf, "rf": rf}
 
 
 def gen_session(rng):
@@ -110,6 +130,8 @@ def gen_session(rng):
 
 def cases(rng, tier):
     na, nb = {"quick": (500, 300), "thorough": (6000, 4000)}.get(tier, (300, 150))
+    for _ in range(max(20, na // 10)):
+        yield gen_bigint(rng)
     for _ in range(na):
         yield gen_trunc(rng)
     for _ in range(nb):
@@ -125,6 +147,12 @@ def run_impl(c):
         from traffic_weaver.process import truncate
         x, y = V(c)
         try:
+            if c.get("bigint"):
+                xi = S.arr([int(v) for v in x], dtype=np.int64)
+                lb = float(Fraction(c["l"])) if c["lf"] else int(Fraction(c["l"]))
+                rb = float(Fraction(c["r"])) if c["rf"] else int(Fraction(c["r"]))
+                rx, ry = truncate(xi, S.arr(floats(y)), lb, rb, c["lr"], c["rr"])
+                return {"ok": [[str(int(v)) for v in rx], [float(v) for v in ry]], "exact_ints": True}
             rx, ry = truncate(S.arr(floats(x)), S.arr(floats(y)), float(Fraction(c["l"])), float(Fraction(c["r"])),
                               c["lr"], c["rr"])
             return {"ok": [[float(v) for v in rx], [float(v) for v in ry]]}
@@ -158,6 +186,9 @@ def compare(c, io, mo):
             return f"impl returned a cut, model says {m[:60]}"
         f = m[3:].split(" ")
         mx, my = parse_rats(f[2]), parse_rats(f[3])
+        if io.get("exact_ints"):
+            ok = [Fraction(v) for v in io["ok"][0]] == list(mx) and exact(io["ok"][1], my)
+            return None if ok else f"cut differs: impl x {io['ok'][0][:3]}..{io['ok'][0][-1:]} ({len(io['ok'][0])}) model {[str(v) for v in mx[:3]]} ({len(mx)})"
         return None if exact(io["ok"][0], mx) and exact(io["ok"][1], my) else f"cut differs: impl {io['ok'][0]} model {[float(v) for v in mx]}"
     return W.compare_program(c, io, mo)
 
@@ -171,6 +202,16 @@ def expected_cut(xf, l, r):
 
 
 def oracle(c, io):
+    if c["kind"] == "truncate" and c.get("bigint"):
+        x, y = V(c)
+        l, r = Fraction(c["l"]), Fraction(c["r"])
+        if "err" in io:
+            return f"valid truncation raised {io['err']}"
+        a, b = expected_cut(x, l, r)
+        if [Fraction(v) for v in io["ok"][0]] != x[a:b + 1] or io["ok"][1] != floats(y)[a:b + 1]:
+            return (f"truncate of integer time stamps to [{c['l']}, {c['r']}] kept {len(io['ok'][0])} samples starting at "
+                    f"{io['ok'][0][:1]}; the smallest covering run is x[{a}:{b + 1}] ({b + 1 - a} samples starting at {x[a]})")
+        return None
     if c["kind"] == "truncate":
         x, y = V(c)
         xf, yf = floats(x), floats(y)
